@@ -318,9 +318,13 @@ def run(prog, tier):
     ra = Resolver(ae, prog, c.module, c)
     nx, ny = ae.args.args[1].arg, ae.args.args[2].arg
     l_x = line_of(lambda s_: isinstance(s_, ast.Assign) and U(s_.targets[0]) == "self.x"
-                  and pmatch(s_.value, "append(self.x, _n, axis=0)") is not None and nx in U(ra.term(s_.value, s_)))
+                  and any(pmatch(s_.value, pt_) is not None for pt_ in ("append(self.x, _n, axis=0)", "vstack((self.x, _n))", "vstack([self.x, _n])",
+                                                                        "concatenate((self.x, _n))", "concatenate([self.x, _n])", "row_stack((self.x, _n))"))
+                  and nx in U(ra.term(s_.value, s_)))
     l_y = line_of(lambda s_: isinstance(s_, ast.Assign) and U(s_.targets[0]) == "self.y"
-                  and pmatch(s_.value, "append(self.y, _n)") is not None and ny in U(ra.term(s_.value, s_)))
+                  and any(pmatch(s_.value, pt_) is not None for pt_ in ("append(self.y, _n)", "concatenate((self.y, _n))", "concatenate([self.y, _n])",
+                                                                        "hstack((self.y, _n))", "hstack([self.y, _n])"))
+                  and ny in U(ra.term(s_.value, s_)))
     gp_st = [s_ for s_ in body if isinstance(s_, ast.Assign) and U(s_.targets[0]) == "self.gp"]
     l_up = line_of(lambda s_: isinstance(s_, ast.Expr) and pmatch(s_.value, "self.acquisition.update_gp(self.gp)") is not None)
     ok, why = False, ""
